@@ -8,7 +8,7 @@ CHECK = Check(
     props_modules=["OW.Props.C03", "OW.Props.C03Bulk", "OW.Props.C03Full"],
     pre_steps=[build_cabi, genidx_step],
     families=[Family("NDPAIR"), Family("ND", args=["prop=C03"], label="ND-c"),
-              Family("CABI", rtol=1e-9, atol_scale=1e-12, tol_by_model=TOL_BY_MODEL, args=["models=" + ",".join(ALL_MODELS), "n=6"] + EXTRA_ARGS)],
+              Family("CABI", rtol=1e-9, atol_scale=1e-12, tol_by_model=TOL_BY_MODEL, args=["models=" + ",".join(ALL_MODELS), "n=10"] + EXTRA_ARGS)],
     level="proof",
     trusted=[
         "hand-written Lean model of the C back-end (data/cdata/arrays_c.go) inside OW/Nd/Array.lean (isC = true paths: unchecked pointer "
